@@ -14,7 +14,7 @@ for b in branches:
         for h, s in subj_map("76596b2.." + b):
             if s in main and main[s] != h:
                 old2new[h] = main[s]
-for path in sorted(glob.glob(os.path.join(ROOT, "known_findings.d", "*.json"))):
+for path in sorted(glob.glob(os.path.join(ROOT, "known_findings.d", "*.json")) + glob.glob(os.path.join(ROOT, "props", "C*.json")) + glob.glob(os.path.join(ROOT, "design", "C*.md"))):
     text = open(path).read()
     new = text
     for o, n in old2new.items():
